@@ -717,6 +717,12 @@ class ListenerRequestHandler(BaseHTTPRequestHandler):
         if cim_error is not None:
             self.send_header("CIMError", cim_error)
         if cim_error_details is not None:
+            # An HTTP header value must be a single line of ISO-8859-1
+            # characters: fold line breaks, escape anything else.
+            cim_error_details = re.sub(
+                r'\s*[\r\n]+\s*', ' ', cim_error_details).strip()
+            cim_error_details = cim_error_details.encode(
+                'latin-1', 'backslashreplace').decode('latin-1')
             self.send_header("CIMErrorDetails", cim_error_details)
         if headers is not None:
             for header, value in headers:
